@@ -25,7 +25,7 @@ SL(x) == StrL(StrCps(x))
 \* dj-related: the base is a related manager (the posts of author 1), not the model's default manager
 \* sa-*-cols: the base selects a column subset (the title) that does not identify the row
 \* (the Deep machine keeps to the entity styles and the OData filters: its space is the orders of two conditions and two pre-joins)
-Styles == {"sa-select", "sa-legacy", "dj-queryset", "dj-manager", "dj-related"} \cup (IF Deep THEN {} ELSE {"sa-select-cols", "sa-legacy-cols"})
+Styles == {"sa-select", "sa-legacy", "dj-queryset", "dj-manager", "dj-related"} \cup (IF Deep THEN {} ELSE {"sa-select-cols", "sa-legacy-cols", "sa-select-grouped"})
 \* native base conditions the harness knows how to build without the library, with their meaning
 BaseConds == [ npos |-> Cmp("gt", Id0("n"), IntL(0)), ta |-> Cmp("eq", Id0("title"), SL("a")),
                hasauthor |-> Cmp("ne", P("author", <<"name">>), NullL) ]
@@ -64,17 +64,19 @@ Empty == [style |-> "none", wheres |-> <<>>, joins |-> <<>>, order |-> "none", a
 Init == q = Empty /\ steps = <<>>
 PickStyle == /\ q.style = "none" /\ \E s \in Styles : q' = [q EXCEPT !.style = s]
              /\ steps' = steps
-Buildable == q.style \in {"sa-select", "sa-legacy", "dj-queryset", "sa-select-cols", "sa-legacy-cols"} /\ q.applied = 0
+\* sa-select-grouped: the base aggregates (posts per author: GROUP BY author, COUNT); only conditions are put on it
+Buildable == q.style \in {"sa-select", "sa-legacy", "dj-queryset", "sa-select-cols", "sa-legacy-cols", "sa-select-grouped"} /\ q.applied = 0
+Plain == q.style # "sa-select-grouped"
 BaseWhere == /\ Buildable /\ Len(q.wheres) < (IF Deep THEN 2 ELSE 1)
              /\ \E c \in DOMAIN BaseConds : (\A i \in 1..Len(q.wheres) : q.wheres[i] # c) /\ q' = [q EXCEPT !.wheres = Append(@, c)] /\ steps' = Append(steps, <<"where", c>>)
 \* author-explicit: joined by naming the target and the ON clause (join(Author, Post.author_id == Author.id)) instead of the relationship
 RelOf(j) == IF j \in {"author-inner", "author-outer", "author-explicit"} THEN "author" ELSE "info"
-BaseJoin == /\ Buildable /\ Len(q.joins) < (IF Deep THEN 2 ELSE 1) /\ q.style # "dj-queryset"
+BaseJoin == /\ Buildable /\ Plain /\ Len(q.joins) < (IF Deep THEN 2 ELSE 1) /\ q.style # "dj-queryset"
             /\ \E j \in {"author-inner", "author-outer", "author-explicit", "info-inner", "info-outer"} :
                  (\A i \in 1..Len(q.joins) : RelOf(q.joins[i]) # RelOf(j)) /\ q' = [q EXCEPT !.joins = Append(@, j)] /\ steps' = Append(steps, <<"join", j>>)
-BaseOrder == /\ Buildable /\ q.order = "none"
+BaseOrder == /\ Buildable /\ Plain /\ q.order = "none"
              /\ q' = [q EXCEPT !.order = "id-desc"] /\ steps' = Append(steps, <<"order", "id-desc">>)
-BaseAnnotate == /\ Buildable /\ ~q.annot
+BaseAnnotate == /\ Buildable /\ Plain /\ ~q.annot
                 /\ q' = [q EXCEPT !.annot = TRUE] /\ steps' = Append(steps, <<"annotate", "extra">>)
 Apply == /\ q.style # "none" /\ q.applied = 0
          /\ \E f \in 1..(IF Deep THEN NF ELSE NF + Len(ManyFilters)) : q' = [q EXCEPT !.applied = f] /\ steps' = Append(steps, <<"apply", f>>)
